@@ -18,7 +18,8 @@ func init() {
 			"(R2) the stream bookkeeping functions keep (first frame, first time) congruent with the retained samples: append re-bases on the new segment minus the samples already held, trim advances both by exactly the samples dropped and keeps the tail; TimeOf(n) = firstTime + n*framesPerSample*framePeriod; " +
 			"(R3) the per-block pipeline order decimate < append < trigger < analyze < publish with the same record slice flowing through, primaries of all channels complete before distribution, secondaries complete before any stream is trimmed; " +
 			"(R4) only DataStream's own methods write a stream's buffer and labels. " +
-			"Does not decide: that enough history is retained (C02), bit-identity end to end for every block partition, index safety (numeric ranges), the trigger search arithmetic.",
+			"(R5) an error that reaches a panic in the block path is never one made under a test of the length of a record's own samples (with variable-length records that length depends on the stream content). " +
+			"Does not decide: that enough history is retained (C02), bit-identity end to end for every block partition, crash freedom in general (index safety, numeric ranges; R5 covers explicit panics on returned errors only), the trigger search arithmetic.",
 		RuleDocs: []string{
 			"C01.R1 record construction congruences (E3) at every DataRecord composite literal",
 			"C01.R2 stream bookkeeping congruences (E3) in every function that stores the stream buffer; TimeOf formula",
@@ -60,7 +61,7 @@ func runC01(p *Prog, r *Report) {
 	c01R2(p, r)
 	c01R3(p, r)
 	c01R4(p, r)
-	r.MinInstances["C01.R5"] = 2
+	r.MinInstances["C01.R5"] = 1
 	c01R5(p, r)
 }
 
